@@ -28,13 +28,7 @@ func (r *pathRun) assumeRange(v *Term, lo, hi uint64) {
 // index bounds-checks idx against n and returns a concrete index.
 func (r *pathRun) index(idx value, n int) int {
 	if s, ok := idx.(sym); ok {
-		c := r.ctx
-		var inb *Term
-		if kindSigned(s.k) {
-			inb = c.And(c.Bin(OpSLe, c.Const(s.t.W, 0), s.t), c.Bin(OpSLt, s.t, c.Const(s.t.W, uint64(n))))
-		} else {
-			inb = c.Bin(OpULt, s.t, c.Const(s.t.W, uint64(n)))
-		}
+		inb := r.inBounds(s, n)
 		if !r.decide(inb, "index-in-range") {
 			panic(rtError(fmt.Sprintf("index out of range [symbolic] with length %d", n)))
 		}
@@ -70,12 +64,7 @@ func (r *pathRun) indexRead(xs []value, idx value) value {
 	}
 	c := r.ctx
 	n := len(xs)
-	var inb *Term
-	if kindSigned(s.k) {
-		inb = c.And(c.Bin(OpSLe, c.Const(s.t.W, 0), s.t), c.Bin(OpSLt, s.t, c.Const(s.t.W, uint64(n))))
-	} else {
-		inb = c.Bin(OpULt, s.t, c.Const(s.t.W, uint64(n)))
-	}
+	inb := r.inBounds(s, n)
 	if !r.decide(inb, "index-in-range") {
 		panic(rtError(fmt.Sprintf("index out of range [symbolic] with length %d", n)))
 	}
@@ -166,4 +155,11 @@ func (r *pathRun) noteRuntimePanic(fr *frame, p any) {
 		pos = fr.fn.String()
 	}
 	r.rtPanics = append(r.rtPanics, pos+": "+msg)
+}
+
+// inBounds is the term 0 <= idx < n, computed at 64 bits so that n always fits.
+func (r *pathRun) inBounds(s sym, n int) *Term {
+	c := r.ctx
+	t := c.Resize(s.t, 64, kindSigned(s.k))
+	return c.And(c.Bin(OpSLe, c.Const(64, 0), t), c.Bin(OpSLt, t, c.Const(64, uint64(n))))
 }
